@@ -200,7 +200,7 @@ package ast
 //@ func (n *Grammar) Equal(rhs Node) bool
 //@   requires n != nil && (forall k int :: {n.Decls[k]} 0 <= k && k < len(n.Decls) ==> n.Decls[k] != nil) && (typeis(rhs, "*Grammar") ==> unbox(rhs, "*Grammar") != nil)
 //@   loop[0] invariant forall k int :: {n.Decls[k]} 0 <= k && k < __i0 ==> eqv(n.Decls[k], nn.Decls[k])
-//@   ensures @structural result0 == (typeis(rhs, "*Grammar") && len(n.Decls) == len(unbox(rhs, "*Grammar").Decls) && (forall k int :: {n.Decls[k]} 0 <= k && k < len(n.Decls) ==> eqv(n.Decls[k], unbox(rhs, "*Grammar").Decls[k])) && samePos(n.Position, unbox(rhs, "*Grammar").Position))
+//@   ensures @structural result0 == (typeis(rhs, "*Grammar") && n.Name == unbox(rhs, "*Grammar").Name && len(n.Decls) == len(unbox(rhs, "*Grammar").Decls) && (forall k int :: {n.Decls[k]} 0 <= k && k < len(n.Decls) ==> eqv(n.Decls[k], unbox(rhs, "*Grammar").Decls[k])) && samePos(n.Position, unbox(rhs, "*Grammar").Position))
 //@ func (n *PrecedenceDecl) Equal(rhs Node) bool
 //@   requires n != nil && (forall k int :: {n.Handles[k]} 0 <= k && k < len(n.Handles) ==> n.Handles[k] != nil) && (typeis(rhs, "*PrecedenceDecl") ==> unbox(rhs, "*PrecedenceDecl") != nil)
 //@   loop[0] invariant forall k int :: {n.Handles[k]} 0 <= k && k < __i0 ==> eqv(n.Handles[k], nn.Handles[k])
